@@ -75,3 +75,9 @@ Definition within (q : qos) (l : list sample) : Prop :=
   lim_ok (q_ms q) (Z.of_nat (length l)) = true /\
   lim_ok (q_mi q) (Z.of_nat (length (distinct_insts l []))) = true /\
   forall h, lim_ok (q_mspi q) (count (of_inst h) l) = true.
+
+(* the correspondence case the MODEL itself produces for a QoS and a history: what the
+   harness would print if the implementation were the model *)
+Definition model_case (q : qos) (ops : list op) : Rdr_case :=
+  let m := model_evs (init_reader q) ops in
+  mkRdr q ops (snd m) (r_samples (fst m)) (map i_handle (r_insts (fst m))) (r_owns (fst m)) (probe (fst m)).
